@@ -231,6 +231,9 @@ func zzNewWorld(kl, nkeys, lenset int) *zzWorld {
 	rt.ClockSet(w.now)
 	rt.ClockFreeze(true) // A1: one instant per command
 	rt.RandDistinct(true) // A2: tokens drawn from crypto/rand are pairwise distinct
+	if rt.Param("poolhavoc", 0) == 1 {
+		rt.PoolHavoc(true) // C14: a pooled object has arbitrary contents once it is back in its pool
+	}
 	w.mc = model.NewMC("mc", w.now)
 	w.ref = &model.Store{Name: "ref"}
 	data, _ := chunkSize(kl)
